@@ -14,7 +14,8 @@ import (
 	"verif/internal/doc"
 )
 
-const defaultBudget = 2_000_000
+// operations a navigator may perform per evaluation; raised for the go-only cases on very large documents
+var defaultBudget int64 = 2_000_000
 
 type docEntry struct {
 	root  *doc.Node
@@ -106,6 +107,46 @@ func doSelect(e *xpath.Expr, d *docEntry, ctx doc.Ref) (out string) {
 	res, proto := drain(e.Select(nav))
 	if proto != "" {
 		return proto
+	}
+	return "N:" + addrs(res)
+}
+
+// doSelectDistinct: the number of distinct nodes a Select yields (for very large results)
+func doSelectDistinct(e *xpath.Expr, d *docEntry, ctx doc.Ref) (out string) {
+	defer func() {
+		if r := recover(); r != nil {
+			out = classify(r)
+		}
+	}()
+	nav := doc.NewNavigator(d.root, ctx, d.hasNS, &doc.Budget{Left: defaultBudget})
+	it := e.Select(nav)
+	seen := map[doc.Ref]bool{}
+	for it.MoveNext() {
+		seen[doc.RefOf(it.Current())] = true
+	}
+	return fmt.Sprintf("K:%d", len(seen))
+}
+
+// doSelectRefusing: Select with a navigator whose MoveTo always fails; Current() must still be
+// positioned on every node reported (NodeIterator falls back to a copy of the node)
+func doSelectRefusing(e *xpath.Expr, d *docEntry, ctx doc.Ref) (out string) {
+	defer func() {
+		if r := recover(); r != nil {
+			out = classify(r)
+		}
+	}()
+	nav := refusingNav{doc.NewNavigator(d.root, ctx, d.hasNS, &doc.Budget{Left: defaultBudget})}
+	it := e.Select(nav)
+	var res []doc.Ref
+	for it.MoveNext() {
+		cur := it.Current()
+		if w, ok := cur.(refusingNav); ok {
+			cur = w.NodeNavigator
+		}
+		res = append(res, doc.RefOf(cur))
+		if len(res) > 200000 {
+			panic(doc.BudgetExceeded)
+		}
 	}
 	return "N:" + addrs(res)
 }
@@ -273,22 +314,31 @@ func runCases(path string, out *bufio.Writer) error {
 			id, kind := fl[1], fl[2]
 			var res string
 			switch kind {
-			case "sel", "eval", "hist":
+			case "sel", "eval", "hist", "selnm", "histgo", "selgo", "evalgo", "distinctgo":
 				d := docs[fl[3]]
+				defaultBudget = 2_000_000
+				if kind == "selgo" || kind == "evalgo" || kind == "distinctgo" {
+					defaultBudget = 4_000_000_000
+				}
 				ctx, err := doc.ParseAddr(d.root, fl[4])
 				if err != nil {
 					return fmt.Errorf("case %s: %v", id, err)
 				}
 				expr := doc.Unesc(fl[6])
-				if kind == "hist" {
+				if kind == "hist" || kind == "histgo" {
+					// histgo: the same, compared on the implementation side only (fresh compile vs history)
 					res = doHistory(expr, fl[5], docs, fl[8], fl[7], d, ctx)
 					break
 				}
 				e, err := compile(expr, fl[5])
 				if err != nil {
 					res = "E:compile:" + doc.Esc(err.Error())
-				} else if kind == "sel" {
+				} else if kind == "sel" || kind == "selgo" {
 					res = doSelect(e, d, ctx)
+				} else if kind == "distinctgo" {
+					res = doSelectDistinct(e, d, ctx)
+				} else if kind == "selnm" {
+					res = doSelectRefusing(e, d, ctx)
 				} else {
 					res = doEvaluate(e, d, ctx)
 				}
